@@ -84,6 +84,41 @@ def run(shard):
         if miss or extra:
             report("all nested", "all_code_data() yields %d, recursive co_consts walk finds %d; missing %s extra %s" % (
                 len(got_all), len(everything), [m.name for m in miss][:5], [e.name for e in extra][:5]))
+        # iterator protocol: the enumeration is consumed step by step, resumed after other calls, and two of them may be in flight
+        H.count("checks:C14.protocol")
+        mon.enabled = False
+        try:
+            r = cd.all_code_data()
+            try:
+                first = next(r)
+                if first is not cd:
+                    report("iterator protocol", "next(cd.all_code_data()) is not the object itself")
+                other = cd.all_code_data()
+                next(other)                              # a second enumeration in flight
+                list(cd)                                 # unrelated calls in between
+                rest = list(r)
+                m_, e_ = _match([first] + rest, got_all)
+                if m_ or e_:
+                    report("iterator protocol", "first item by next() + the rest after other calls gives %d code objects, one pass gives %d" % (1 + len(rest), len(got_all)))
+                again = list(r)
+                if again:
+                    report("iterator protocol", "an exhausted all_code_data() enumeration yields %d more items" % len(again))
+                if len(list(other)) != len(got_all) - 1:
+                    report("iterator protocol", "a second enumeration in flight was disturbed by the first")
+            except TypeError as e:
+                report("iterator protocol", "cd.all_code_data() cannot be advanced with next(): %s" % e)
+            i1, i2 = iter(cd), iter(cd)
+            a1, a2 = [], []
+            for _ in range(len(got_direct) + 1):
+                for it_, acc in ((i1, a1), (i2, a2)):
+                    try:
+                        acc.append(next(it_))
+                    except StopIteration:
+                        pass
+            if len(a1) != len(got_direct) or len(a2) != len(got_direct):
+                report("iterator protocol", "two interleaved iter(cd) yield %d and %d items, one pass yields %d" % (len(a1), len(a2), len(got_direct)))
+        finally:
+            mon.enabled = True
         # the same value held in other ways - an instance of a subclass, a copy, the JSON-loaded twin - is a CodeData too
         if len(everything) > 1 and len(everything) <= 60:
             import copy
